@@ -4,7 +4,7 @@ from __future__ import annotations
 import random
 from typing import Any, Dict, List
 
-from harness import chem, core, reactlib
+from harness import chem, core, expansion, reactlib
 
 # look-alikes: same skeleton, different charge / hydrogen count
 LOOKALIKES = ["CC(=O)O.CO", "CC(=O)[O-].CO", "CC(=O)O.C[O-]", "CBr.[OH-]", "CBr.O", "CC=O.CN", "CC=O.C[NH3+]", "CC=O.C[NH-]", "CCO.CC(=O)O", "CC[O-].CC(=O)O"]
@@ -105,6 +105,62 @@ class S(core.Stage):
         return [c["what"]]
 
 
+# ------------------------------------------------------------------ network expansion as a state machine (Expansion.tla)
+MC_BASE = {"NSpecies": "3", "ArityCode": "12", "MaxComp": "3", "UseFrontier": "TRUE", "CapMix": "1000", "CapTasks": "1000",
+           "SkipNoChange": "TRUE", "AllowEmpty": "FALSE", "DedupDelta": "TRUE", "DedupAcross": "FALSE", "Repeats": "4",
+           "MaxSeeds": "2", "RichMenu": "FALSE"}
+
+
+def mc_cfg(d):
+    b = lambda x: x == "TRUE"
+    return {"arity": [int(c) for c in d["ArityCode"]], "maxComp": int(d["MaxComp"]), "useFrontier": b(d["UseFrontier"]), "capMix": int(d["CapMix"]),
+            "capTasks": int(d["CapTasks"]), "skipNoChange": b(d["SkipNoChange"]), "allowEmpty": b(d["AllowEmpty"]), "dedupDelta": b(d["DedupDelta"]),
+            "dedupAcross": b(d["DedupAcross"]), "repeats": int(d["Repeats"])}
+
+
+def replay_case(inp):
+    """spec -> code: a finished behaviour of MC_Expansion (TLC chose the chemistry) run through the real SynCRN"""
+    modes = [("serial", False, None)] + ([("parallel-%d" % inp["workers"], True, inp["workers"])] if inp.get("workers") else [])
+    return expansion.replay_behaviour(inp["beh"], inp["cfg"], modes=modes)
+
+
+def history_case(inp):
+    """code -> spec: the real chemistry; the same build recorded serially and with worker processes"""
+    logs, crn = [], None
+    for mode, par, w in [("serial", False, None)] + [("parallel-%d" % w, True, w) for w in inp["workers"]]:
+        crn, log = expansion.record_build(inp["rules"], inp["seeds"], parallel=par, workers=w, **inp["kw"])
+        logs.append((mode, log))
+    runs = expansion.project_runs(logs)
+    if not any(s["ran"] and len(s["post"]["nodes"]) > len(runs[0]["init"]["nodes"]) for s in runs[0]["steps"]):
+        return {"_skip": "expansion-produced-nothing"}
+    return {"cfg": expansion.cfg_of(crn, [expansion.lhs_arity(r) for r in inp["rules"]]), "runs": runs}
+
+
+class X(core.Stage):
+    module = "ExpansionTrace"
+    shard_size = 40
+    tlc_heap = "4g"
+    nontrivial_rule = "build that records at least one reaction"
+
+    def __init__(self, name, fn, inputs, parallel_exec):
+        self.name, self.fn, self._inputs, self.parallel_exec = name, fn, inputs, parallel_exec
+
+    def inputs(self, ctx):
+        return self._inputs
+
+    def execute(self, inp):
+        return self.fn(inp)
+
+    def nontrivial(self, c):
+        return any(n["kind"] == "e" for s in c["runs"][0]["steps"] for n in s["post"]["nodes"])
+
+    def tags(self, c):
+        t = ["runs=%d" % len(c["runs"]), "steps=%d" % len(c["runs"][0]["steps"])]
+        if "expect" in c:
+            t.append("model-behaviour")
+        return t
+
+
 def batches(rng, n_batches, size, quick):
     tb = [t["rsmi"] for t in reactlib.textbook() if "explicit" not in t["name"]]
     out = []
@@ -162,8 +218,53 @@ def run(ctx: core.Ctx) -> None:
         for w in ((2, 3, 4, 7) if q else (2, 3, 4, 5, 6, 7, 8)):
             same.append({"what": "network-expansion", "rules": rules, "seeds": seeds, "repeats": 2, "workers": w})
     core.run_stage(ctx, S("serial-versus-parallel", same_case, same))
+    expansion_stages(ctx, nets)
+
+
+def expansion_stages(ctx, nets):
+    q, rng = ctx.quick, ctx.rng
+    # design level: the expansion loop over every chemistry of a small universe
+    core.model_check(ctx, "MC_Expansion", defines=dict(MC_BASE, Repeats="3" if q else "4", MaxSeeds="1" if q else "2"), label="Expansion-frontier-loop")
+    core.model_check(ctx, "MC_Expansion", defines=dict(MC_BASE, UseFrontier="FALSE", Repeats="3", MaxSeeds="1" if q else "2"), label="Expansion-without-frontier")
+    if not q:
+        core.model_check(ctx, "MC_Expansion", defines=dict(MC_BASE, ArityCode="22", DedupAcross="TRUE", MaxSeeds="2", Repeats="3"), label="Expansion-two-binary-rules-dedup-across")
+        core.model_check(ctx, "MC_Expansion", defines=dict(MC_BASE, ArityCode="3", NSpecies="4", MaxSeeds="3", Repeats="3", AllowEmpty="TRUE", SkipNoChange="FALSE"), label="Expansion-ternary-rule")
+    core.model_check(ctx, "MC_Expansion", defines=dict(MC_BASE, CapMix="1", Repeats="3"), label="Expansion-with-a-binding-cap-is-incomplete", expect_violation=True)
+    core.model_check(ctx, "MC_Expansion", cfg="MC_ExpansionRepeats", defines=dict(MC_BASE, Repeats="3"), label="Expansion-never-offers-A+A", expect_violation=True)
+    # spec -> code: behaviours TLC found, with the chemistry it chose, replayed into the real class
+    if q:
+        gens = [dict(MC_BASE, Repeats="2", MaxSeeds="1"), dict(MC_BASE, Repeats="2", MaxSeeds="2", RichMenu="TRUE", NSpecies="2"),
+                dict(MC_BASE, Repeats="3", MaxSeeds="1", CapMix="2", CapTasks="2"),
+                dict(MC_BASE, Repeats="2", MaxSeeds="1", AllowEmpty="TRUE", SkipNoChange="FALSE", DedupDelta="FALSE", UseFrontier="FALSE")]
+    else:
+        gens = [dict(MC_BASE, Repeats="3", MaxSeeds="1"), dict(MC_BASE, Repeats="2", MaxSeeds="2", RichMenu="TRUE", NSpecies="2"),
+                dict(MC_BASE, Repeats="3", MaxSeeds="1", CapMix="2", CapTasks="3"), dict(MC_BASE, Repeats="3", MaxSeeds="1", UseFrontier="FALSE"),
+                dict(MC_BASE, Repeats="3", MaxSeeds="1", AllowEmpty="TRUE", SkipNoChange="FALSE", DedupDelta="FALSE"),
+                dict(MC_BASE, Repeats="3", MaxSeeds="2", ArityCode="22", DedupAcross="TRUE"), dict(MC_BASE, Repeats="2", MaxSeeds="3", ArityCode="3", NSpecies="4")]
+    per = 400 if q else 6000
+    rep = []
+    for d in gens:
+        behs = core.tlc_generate(ctx, "MC_Expansion", d, cfg="MC_ExpansionGen", label="behaviours")
+        if len(behs) > per:
+            behs = rng.sample(behs, per)
+        for k, b in enumerate(behs):
+            rep.append({"beh": b, "cfg": mc_cfg(d), "workers": rng.choice([2, 3]) if k % (40 if q else 25) == 0 else 0})
+    core.run_stage(ctx, X("expansion-model-behaviours-replayed", replay_case, rep, False))
+    # code -> spec: real chemistry, serial and parallel histories of the same build
+    hist = []
+    for rules, seeds in nets:
+        for kw in ({"repeats": 2}, {"repeats": 2, "dedup_across_rules": True}, {"repeats": 3, "max_mixtures_per_rule_step": 7, "max_tasks_per_step": 11},
+                   {"repeats": 2, "use_frontier": False}):
+            s2 = list(seeds)
+            rng.shuffle(s2)
+            hist.append({"rules": rules, "seeds": s2, "kw": kw, "workers": [rng.choice([2, 3, 4])] if q else [2, 5]})
+    core.run_stage(ctx, X("expansion-histories-real-chemistry", history_case, hist if not q else hist[:8], False))
 
 
 def replay(ctx, data):
+    if data["stage"].startswith("expansion"):
+        fn = replay_case if "replayed" in data["stage"] else history_case
+        core.run_stage(ctx, X(data["stage"], fn, [data["input"]], False))
+        return
     fn = batch_case if data["stage"].startswith("batch") else same_case
     core.run_stage(ctx, S(data["stage"], fn, [data["input"]]))
